@@ -107,8 +107,44 @@ def build_unit(name):
                 if not ln:
                     continue
                 m2 = re.match(r'stmt\s+"(.*)"$', ln)
-                m3 = re.match(r'arg\s+(\w+)\s+(\d+)\s+"(.*)"$', ln)
-                if m2:
+                m3 = re.match(r'arg\s+(\w+)(?:#(\d+))?\s+(\d+)\s+"(.*)"$', ln)
+                m4 = re.match(r'tail\s+"(.*)"$', ln)
+                m5 = re.match(r'index\s+(\w+)(?:#(\d+))?\s+"(.*)"$', ln)
+                if m4:
+                    # trailing expression of the body (after the last `;` / `}` at nesting depth 1; the whole body if there is none)
+                    from rx import lex as _lexT
+                    toksT = _lexT(body)
+                    depth = 0; last = 1
+                    for t in toksT:
+                        if t.kind == 'p':
+                            if t.text in '([{':
+                                depth += 1
+                            elif t.text in ')]}':
+                                depth -= 1
+                                if depth == 1 and t.text == '}':
+                                    last = t.end
+                            elif t.text == ';' and depth == 1:
+                                last = t.end
+                    expr = body[last:body.rstrip().rfind('}')].strip()
+                    if not expr:
+                        raise ExtractError(f'lost anchor: no trailing expression in {relpath}::{fname}')
+                    text = m4.group(1).replace('{}', expr)
+                elif m5:
+                    from rx import lex as _lexI, match_close as _mcI, next_code as _ncI
+                    toksI = _lexI(body)
+                    text = None; seen = 0; want = int(m5.group(2) or 1)
+                    for k, t in enumerate(toksI):
+                        if t.kind == 'id' and t.text == m5.group(1):
+                            o = _ncI(toksI, k)
+                            if o < len(toksI) and toksI[o].text == '[':
+                                seen += 1
+                                if seen == want:
+                                    c = _mcI(toksI, o)
+                                    text = m5.group(3).replace('{}', body[toksI[o].end:toksI[c].start].strip())
+                                    break
+                    if text is None:
+                        raise ExtractError(f'lost anchor: index expression `{m5.group(1)}[..]` #{want} not found in {relpath}::{fname}')
+                elif m2:
                     pos = find_stmt(body, m2.group(1))
                     if pos is None:
                         raise ExtractError(f'lost anchor: statement `{m2.group(1)}` not found in {relpath}::{fname}')
@@ -117,19 +153,22 @@ def build_unit(name):
                 elif m3:
                     from rx import lex as _lex, match_close as _mc, split_top_commas as _sp, text_of as _to, next_code as _nc
                     toks = _lex(body)
-                    text = None
+                    text = None; seen = 0; want = int(m3.group(2) or 1)
                     for k, t in enumerate(toks):
                         if t.kind == 'id' and t.text == m3.group(1):
                             o = _nc(toks, k)
                             if o < len(toks) and toks[o].text == '(':
+                                seen += 1
+                                if seen < want:
+                                    continue
                                 c = _mc(toks, o)
                                 parts = _sp(toks[o + 1:c])
-                                ai = int(m3.group(2))
+                                ai = int(m3.group(3))
                                 if ai < len(parts):
-                                    text = m3.group(3).replace('{}', _to(parts[ai]).strip())
+                                    text = m3.group(4).replace('{}', _to(parts[ai]).strip())
                                 break
                     if text is None:
-                        raise ExtractError(f'lost anchor: call `{m3.group(1)}` argument {m3.group(2)} not found in {relpath}::{fname}')
+                        raise ExtractError(f'lost anchor: call `{m3.group(1)}` #{want} argument {m3.group(3)} not found in {relpath}::{fname}')
                 else:
                     raise ExtractError(f'bad slice line: {ln}')
                 for a_, b_ in subst_pairs:
